@@ -16,7 +16,9 @@ Record wobs := mkW { w_out : N; w_gor : Z; w_lis : Z; w_fds : Z }.
 Record case := mkSweep {
   w_id : N;
   w_svc : N;            (* 1 vnc, 2 ssh-simulator, 3 ipp, 4 ftp data channel without certificate, 5 with,
-                           6 the real server (recovered panics, shared port), 7 redis, 8 ldap, 9 snmp, 10 memcached *)
+                           6 the real server (recovered panics, shared port), 7 redis, 8 ldap, 9 snmp, 10 memcached,
+                           11 telnet, 12 dns-proxy/udp, 13 dns-proxy/tcp, 14 copy/udp, 15 copy/tcp, 16 http-proxy/tcp
+                           (scenario = backend: 0 refuses, 1 silent, 2 closes, 3 resets, 4 answers) *)
   w_scenario : N;       (* which client behaviour (see the harness) *)
   w_silent : bool;      (* the client goes silent instead of closing *)
   w_n : N;
@@ -42,6 +44,10 @@ Definition SIG_FTP_ACTIVE_NO_DEADLINE := 16%N.
 (* ssh-simulator: the shell's line editor spins on a key sequence that fills its 256-byte input
    buffer (scenario 4: shell, ESC + 255 bytes without a final letter) *)
 Definition SIG_SSH_KEYSEQ := 18%N.
+
+(* dns-proxy (stream branch) and http-proxy read the backend's reply without any deadline: a
+   backend that takes the request and stays silent pins the handler (scenario 1 = silent backend) *)
+Definition SIG_PROXY_BACKEND := 19%N.
 
 Definition all_back (k : case) : bool := forallb (fun o => (w_out o <? 2)%N) (w_obs k).
 
@@ -80,6 +86,7 @@ Definition case_sigs (k : case) : list N :=
         [if (w_out o =? 3)%N && (w_svc k =? 1)%N && (w_scenario k =? 5)%N then SIG_VNC_QUEUE
          else if (w_out o =? 3)%N && ((w_svc k =? 4) || (w_svc k =? 5))%N && (w_scenario k =? 17)%N then SIG_FTP_ACTIVE_NO_DEADLINE
          else if (w_out o =? 2)%N && (w_svc k =? 2)%N && (w_scenario k =? 4)%N then SIG_SSH_KEYSEQ
+         else if (w_out o =? 3)%N && ((w_svc k =? 13) || (w_svc k =? 16))%N && (w_scenario k =? 1)%N then SIG_PROXY_BACKEND
          else SIG_NO_RETURN]
       else (if w_gor o =? 0 then [] else [SIG_GOROUTINES]) ++
            (if w_lis o =? 0 then [] else [SIG_LISTENERS]) ++
